@@ -163,6 +163,9 @@ def check(prop, tier, seed):
     items = common.choose_items(prop, tier, seed, n, mode_fraction=0.10, mode_cap=150 if tier == "quick" else 500)
     items += [{"b": k} for k in range(len(universe.battery()))]
     items += [{"v": k} for k in universe.boundary_indices()]
+    # user-object variety battery: only its strict-class (continuous) tasks are judged here (0-d array / numpy / int objective
+    # values, huge / tiny values, user-defined variable subclass, objective that edits its argument)
+    items += [{"y": k} for k, c in enumerate(universe.types_battery()) if tasks.is_strict_class(c["spec"])]
     # integer-coded class: give EVERY (optimizer, encoding) pair that works today at least 6 distinct audited cases per run,
     # so that the wholesale rule can be decided for all of them (c06_pair_index.json lists universe indices per pair)
     try:
